@@ -72,18 +72,16 @@ def main() -> int:
     detected: dict = {}
     rc, out = sh(f"git -C /repo apply {patch}")
     assert rc == 0, out
-    evdir = tempfile.mkdtemp(prefix="verif-seed-ev-")  # evidence of runs on a patched tree is not kept
     try:
-        for i in range(1, 21):
-            pid = f"C{i:02d}"
-            rc, out = sh(f"VERIF_EVIDENCE_DIR={evdir} {PY} check.py {pid}", cwd=str(VERIF))
-            if rc != 0:
-                rules = sorted(set(re.findall(r": (R\d+\.\d+) in ", out)))
-                first = [l for l in out.splitlines() if ": R" in l][:2]
-                detected[pid] = {"exit": rc, "rules": rules, "first": [l[:300] for l in first],
-                                 "analysis_error": [l[:300] for l in out.splitlines() if l.startswith("ANALYSIS-ERROR")]}
+        # all twenty rule sets on /repo with the patch applied, in one process (tools/fastcheck.py gives the
+        # verdicts of check.py without writing evidence)
+        rc, out = sh(f"VERIF_REPO=/repo {PY} tools/fastcheck.py", cwd=str(VERIF))
+        data = json.loads(out.strip().splitlines()[-1])
+        for pid, got in data.items():
+            if got[0] != 0:
+                detected[pid] = {"exit": got[0], "rules": got[2] if len(got) > 2 else [], "first": [l[:300] for l in got[1][:2] if not l.startswith("ANALYSIS-ERROR")],
+                                 "analysis_error": [l[:300] for l in got[1] if l.startswith("ANALYSIS-ERROR")]}
     finally:
-        shutil.rmtree(evdir, ignore_errors=True)
         sh("git -C /repo checkout -- .")
         rc, out = sh("git -C /repo status --short")
         assert out.strip() == "", f"/repo not clean: {out}"
